@@ -47,6 +47,9 @@ Proof. unfold begin_tx. destruct (tx se); auto. Qed.
 Lemma begin_tx_ac (se : sess) : ac (begin_tx se) = ac se.
 Proof. unfold begin_tx. destruct (tx se); auto. Qed.
 
+Lemma begin_tx_open (se : sess) : tx se = true -> begin_tx se = se.
+Proof. intros H. unfold begin_tx. now rewrite H. Qed.
+
 (* control flow of [step] *)
 Ltac break :=
   repeat match goal with
@@ -729,6 +732,35 @@ Proof.
   - intros t w. now apply write_without_tx.
 Qed.
 
+(* inside a READ ONLY transaction a DML statement (one table, all tables registered, several tables) is refused and
+   changes nothing: not the database, not the other sessions, not what the session itself reads *)
+Definition is_dml (q : stmt) : bool :=
+  match q with Write _ _ | WriteAll _ _ => true | Multi m => mwrites m | _ => false end.
+
+Theorem read_only_refuses_dml st s q :
+  tx (ss st s) = true -> ro (ss st s) = true -> holding (ss st s) -> is_dml q = true ->
+  let st' := fst (step st s q) in
+  snd (step st s q) = RErr /\ (forall t, db st' t = db st t) /\ (forall s', s' <> s -> ss st' s' = ss st s') /\
+  (forall t, view st' s t = view st s t) /\ tx (ss st' s) = true /\ ro (ss st' s) = true.
+Proof.
+  intros Htx Hro Hh Hq. cbn zeta.
+  assert (Hr : forall g, tracks (db st) g (view st s) ->
+            let x := rejected st s (ss st s) g in
+            snd x = RErr /\ (forall t, db (fst x) t = db st t) /\ (forall s', s' <> s -> ss (fst x) s' = ss st s') /\
+            (forall t, view (fst x) s t = view st s t) /\ tx (ss (fst x) s) = true /\ ro (ss (fst x) s) = true).
+  { intros g Hg. cbn zeta. unfold rejected. rewrite fail_sess_holding by auto. cbn [fst snd db ss].
+    split; [reflexivity|]. split; [reflexivity|]. split; [intros; now apply set_sess_other|].
+    rewrite set_sess_same. cbn [with_stg tx ro]. split; [|auto].
+    intros t. unfold view at 1. cbn [db ss]. rewrite set_sess_same. unfold begin_tx. cbn [with_stg tx]. rewrite Htx. apply Hg. }
+  assert (Hv : tracks (db st) (staged (ss st s)) (view st s)).
+  { intros t. unfold view. now rewrite begin_tx_open. }
+  unfold C17Txn.step. rewrite (begin_tx_open _ Htx). cbn zeta.
+  destruct q; try discriminate; cbn [is_dml] in Hq; rewrite Hro; try rewrite Hq; cbn [andb]; apply Hr.
+  - now apply tracks_touch.
+  - now apply tracks_touch.
+  - now apply tracks_touch_list.
+Qed.
+
 (* ------------------------------------------------------------------------------------------------ *)
 (* 11. Non-overlapping transactions: the machine equals the serial reference, results included.          *)
 
@@ -781,9 +813,6 @@ Qed.
 (* inside a transaction that the end of a statement does not commit *)
 Definition intx (st : state) (s : sid) (r : bool) (sd : tid -> data) : Prop :=
   tx (ss st s) = true /\ holding (ss st s) /\ ro (ss st s) = r /\ tracks (db st) (staged (ss st s)) sd.
-
-Lemma begin_tx_open (se : sess) : tx se = true -> begin_tx se = se.
-Proof. intros H. unfold begin_tx. now rewrite H. Qed.
 
 Lemma body_step st s q sd r :
   intx st s r sd ->
@@ -863,6 +892,16 @@ Proof.
   repeat split.
 Qed.
 
+(* SET autocommit = 1 of a session with autocommit off and no explicit transaction: commits the pending work *)
+Lemma setac_on_commits st s r sd :
+  intx st s r sd -> ign (ss st s) = false ->
+  let st' := fst (step st s (SetAC true)) in
+  (forall t, db st' t = sd t) /\ idle (ss st' s) /\ snd (step st s (SetAC true)) = ROk.
+Proof.
+  intros (Htx & _ & _ & Htr) Hi. cbn zeta. unfold C17Txn.step. rewrite (begin_tx_open _ Htx). cbn zeta.
+  unfold close. cbn [tx ign]. rewrite Htx, Hi. cbn. rewrite set_sess_same. repeat split. exact Htr.
+Qed.
+
 Lemma view_intx (st : state) s r sd : intx st s r sd -> forall t, view st s t = sd t.
 Proof. intros (Htx & _ & _ & Htr) t. unfold view. rewrite begin_tx_open by auto. apply Htr. Qed.
 
@@ -881,11 +920,14 @@ Proof.
   rewrite (IH _ s) by (auto; intros e He; apply Hall; now right). now apply step_other_sess.
 Qed.
 
-Lemma flatten_own (b : block wop mop) : match b with Auto s _ | AutoIC s _ | Txn s _ _ _ _ => forall e, In e (flatten b) -> fst e = s end.
+Lemma flatten_own (b : block wop mop) :
+  match b with Auto s _ | AutoIC s _ | OffSet s _ | Txn s _ _ _ _ => forall e, In e (flatten b) -> fst e = s end.
 Proof.
-  destruct b as [s q|s i|s k body fin c]; cbn [flatten]; intros e He.
+  destruct b as [s q|s i|s body|s k body fin c]; cbn [flatten]; intros e He.
   - destruct He as [<-|[]]. reflexivity.
   - destruct He as [<-|[]]. reflexivity.
+  - destruct He as [<-|He]; [reflexivity|]. apply in_app_or in He. destruct He as [He|[<-|[]]]; [|reflexivity].
+    apply in_map_iff in He. destruct He as (q & <- & _). reflexivity.
   - destruct He as [<-|He]; [reflexivity|].
     repeat (apply in_app_or in He; destruct He as [He|He]).
     + apply in_map_iff in He. destruct He as (q & <- & _). reflexivity.
@@ -899,7 +941,22 @@ Lemma block_run st b :
   all_idle st' /\ (forall t, db st' t = fst (apply_block (db st) b) t) /\ rs = snd (apply_block (db st) b).
 Proof.
   intros Hid. pose proof (flatten_own b) as Hown.
-  destruct b as [s q|s i|s k body fin c].
+  destruct b as [s q|s i|s body|s k body fin c].
+  3: { (* SET autocommit = 0; body; SET autocommit = 1 *)
+    assert (Hoth : forall s', s' <> s -> ss (fst (run st (flatten (OffSet s body)))) s' = ss st s').
+    { intros s' Hn. now apply (run_other_sess _ st s Hown). }
+    cbn [flatten] in *. rewrite run_cons, run_app in *.
+    destruct (opener_step st s KOff (Hid s)) as (O1 & O2 & O3 & O4 & O5). cbn [opener is_ro] in *.
+    set (st0 := fst (step st s (SetAC false))) in *.
+    pose proof (body_run s false body st0 (db st) O2) as HB.
+    destruct (run st0 (map (fun q => (s, stmt_of q)) body)) as [st1 rs1] eqn:E1.
+    destruct HB as (B1 & B2 & B3 & B4 & B5 & B6).
+    cbn [fst snd] in *. cbn [C17Txn.apply_block].
+    destruct (apply_rws false (db st) body) as [sd rsS] eqn:ES. cbn [fst snd] in *.
+    rewrite run_one in *. cbn [fst snd] in *.
+    destruct (setac_on_commits st1 s false sd B2) as (S1 & S2 & S3); [now rewrite B3|].
+    rewrite O5, B5, S3.
+    split; [apply (all_idle_after st _ s Hid S2 Hoth)|]. split; [exact S1|reflexivity]. }
   - cbn [flatten]. rewrite run_one.
     destruct (auto_step st s q (Hid s)) as (A1 & A2 & A3).
     cbn [C17Txn.apply_block]. destruct (apply_rw false (db st) q) as [d' r] eqn:E. cbn [fst snd] in *.
@@ -1018,11 +1075,13 @@ Lemma apply_block_ext (d1 d2 : tid -> data) b :
   (forall t, d1 t = d2 t) ->
   (forall t, fst (apply_block d1 b) t = fst (apply_block d2 b) t) /\ snd (apply_block d1 b) = snd (apply_block d2 b).
 Proof.
-  intros H. destruct b as [s q|s i|s k body fin c]; cbn.
+  intros H. destruct b as [s q|s i|s body|s k body fin c]; cbn.
   - destruct (apply_rw_ext false d1 d2 q H) as [H1 H2].
     destruct (apply_rw false d1 q), (apply_rw false d2 q). cbn in *. split; auto. congruence.
   - destruct (apply_ic_ext d1 d2 i H) as [H1 H2].
     destruct (apply_ic d1 i), (apply_ic d2 i). cbn in *. split; auto. congruence.
+  - destruct (apply_rws_ext false body d1 d2 H) as [H1 H2].
+    destruct (apply_rws false d1 body), (apply_rws false d2 body). cbn in *. split; auto. congruence.
   - destruct (apply_rws_ext (is_ro k) body d1 d2 H) as [H1 H2].
     destruct (apply_rws (is_ro k) d1 body) as [e1 r1], (apply_rws (is_ro k) d2 body) as [e2 r2]. cbn in *. subst r2.
     destruct fin as [i|].
@@ -1133,7 +1192,8 @@ Definition example_blocks : list (block cwop cmop) :=
    Txn 2%N (KBegin false) [RWrite 0%N (DelKey 1)] None false;
    Txn 1%N KOff [RWrite 0%N (Ins [(3, 30)]); RSavepoint] (Some (IDdl [0%N])) false;
    Txn 2%N (KBegin true) [RWrite 0%N (DelKey 1); RMulti (MJoinRead 0%N 1%N)] None true;
-   AutoIC 2%N (IWrite 1%N DelAll); Auto 1%N (RMulti (MInsSel 1%N 0%N 10)); Auto 1%N (RRead 1%N)].
+   AutoIC 2%N (IWrite 1%N DelAll); Auto 1%N (RMulti (MInsSel 1%N 0%N 10)); Auto 1%N (RRead 1%N);
+   OffSet 2%N [RWrite 2%N (Ins [(5, 50)]); RRead 2%N]; Auto 1%N (RRead 2%N)].
 
 Lemma nonvacuous_example :
   let st0 := fst (cstep (init tabs0) 1%N Begin) in
@@ -1141,7 +1201,8 @@ Lemma nonvacuous_example :
   snd (crun (init tabs0) (flat_map flatten example_blocks)) =
   [ROk; ROk; RRows [(1, 10); (2, 20)]; ROk; RRows [(1, 10); (2, 20)];
    ROk; ROk; ROk; ROk; ROk; RErr; ROk; ROk; ROk; ROk; RErr;
-   RRows [(1, 11)]; ROk; ROk; ROk; RRows [(11, 10); (12, 20); (13, 30)]].
+   RRows [(1, 11)]; ROk; ROk; ROk; RRows [(11, 10); (12, 20); (13, 30)];
+   ROk; ROk; RRows [(5, 50)]; ROk; RRows [(5, 50)]].
 Proof.
   split; [|split].
   - left; reflexivity.
